@@ -357,9 +357,12 @@ func (s *Sim) SelectOrder(n int, site string) []int {
 
 // Attach installs the simulator behind vsel's hooks. Detach must be called at the end of the run.
 func (s *Sim) Attach() {
-	vsel.OrderFn = s.SelectOrder
+	s.AttachSelect()
 	vsel.YieldFn = func(ctx context.Context, site string) { s.Park(ctx, "y", site) }
 }
+
+// AttachSelect installs only the select pre-pass (statement and lock yields pass through).
+func (s *Sim) AttachSelect() { vsel.OrderFn = s.SelectOrder }
 
 func Detach() {
 	vsel.OrderFn = nil
